@@ -15,6 +15,8 @@ import expat_oracle, wfgen
 FINDINGS = {
     'D13': 'a general entity whose replacement text contains markup or a reference ("<" or "&", written directly or as a character reference) is referenced: its content is exposed as text',
     'D36': 'an ATTLIST definition is #REQUIRED and the element does not specify the attribute: an attribute with an empty value is materialised',
+    'WF23': 'a general entity whose literal holds "&name;" inside a comment, CDATA section or processing instruction of its replacement text is referenced: the pseudo-reference is checked as a reference (Entity Declared / Parsed Entity / No Recursion) and the well-formed document is refused',
+    'WF24': 'the document type declaration names an external subset (not standalone="yes") and an entity that the internal subset does not declare is referenced directly: refused, although Entity Declared is only a validity constraint then (XML 1.0 4.1)',
     'WF14': 'a maximal run of character data / CDATA / references whose expansion is empty (empty CDATA section, reference to an entity with empty replacement text): the merged view has an empty text node',
     'WF15': 'an attribute name, element name or ATTLIST attribute name starts with the letters xmlns without being xmlns or xmlns:...: rejected (ns_att_name matches the prefix)',
     'WF16': 'a literal CR (or CR LF) in character data, attribute values, comments, PIs or CDATA sections is not normalized to LF (XML 1.0 section 2.11)',
@@ -103,6 +105,32 @@ def explain(text, impl_tokens, spec_tokens, verdict, run=None):
     matches no listed shape.  Each step undoes exactly one listed effect."""
     import re
     if verdict != 'accept':
+        # WF23 (repair-based): the text with the "&" of every pseudo-reference that sits inside a comment, CDATA
+        # section or PI of an entity literal taken out is accepted
+        if run is not None and re.search(r'<!ENTITY', text):
+            def neutral(m):
+                return m.group(0).replace('&', '')
+            def fix_literal(m):
+                lit = m.group(2)
+                lit2 = re.sub(r'<!--.*?-->|<!\[CDATA\[.*?\]\]>|<\?.*?\?>', neutral, lit, flags=re.S)
+                return m.group(1) + lit2 + m.group(3)
+            t2 = re.sub(r'''(<!ENTITY\s+[^\s%][^\s]*\s+")([^"]*)(")''', fix_literal, text)
+            t2 = re.sub(r'''(<!ENTITY\s+[^\s%][^\s]*\s+')([^']*)(')''', fix_literal, t2)
+            if t2 != text and W.run_impl(run, [t2], 'v')[0] == 'accept':
+                return ['WF23']
+        # WF24: an external subset is declared (not standalone="yes") and an entity that the internal subset does
+        # not declare is referenced directly: the same text with those references taken out is accepted
+        if run is not None and re.search(r'<!DOCTYPE\s+[^\s\[>]+\s+(SYSTEM|PUBLIC)\b', text) and not re.search(r'''standalone\s*=\s*["']yes''', text):
+            declared = set(W.entity_literals(text)) | {'lt', 'gt', 'amp', 'apos', 'quot'} | set(re.findall(r'<!ENTITY\s+([^\s%]\S*)\s+(?:SYSTEM|PUBLIC)', text))
+            body = text[len(W.prolog_head(text)):] if W.prolog_head(text) else text[text.find('>', text.find('<!DOCTYPE')) + 1:]
+            und = {n for n in re.findall(r'&([^#;&\s][^;&\s]*);', body) if n not in declared}
+            if und:
+                b2 = body
+                for n in und:
+                    b2 = b2.replace('&%s;' % n, '')
+                t2 = text[:len(text) - len(body)] + b2
+                if W.run_impl(run, [t2], 'v')[0] == 'accept':
+                    return ['WF24']
         if re.search(r'[\s<]xmlns[^\s:=>/]', text):
             return ['WF15']
         for el, an, ty, df in attr_decls(text):
@@ -179,6 +207,13 @@ PROFILE_EXTRA = [
     ('entity-markup', '<!DOCTYPE a [<!ENTITY e "&#38;#60;">]><a>&e;</a>'),
     ('entity-markup', '<!DOCTYPE a [<!ENTITY e "&#38;lt;">]><a x="&e;">&e;</a>'),
     ('entity-markup', '<!DOCTYPE a [<!ENTITY e "<!--c--><?p d?>">]><a>&e;</a>'),
+    ('entity-pseudo-reference', '<!DOCTYPE a [<!ENTITY e "<!-- &u; -->">]><a>&e;</a>'),
+    ('entity-pseudo-reference', '<!DOCTYPE a [<!ENTITY e "<![CDATA[&u;]]>">]><a>&e;</a>'),
+    ('entity-pseudo-reference', '<!DOCTYPE a [<!ENTITY e "<?p &u;?>">]><a>&e;</a>'),
+    ('entity-pseudo-reference', '<!DOCTYPE a [<!ENTITY e "<!-- &e; -->x">]><a>&e;</a>'),
+    ('external-subset', '<!DOCTYPE a SYSTEM "x.dtd"><a>&u;</a>'), ('external-subset', '<!DOCTYPE a SYSTEM "x.dtd"><a k="&u;"/>'),
+    ('external-subset', '<!DOCTYPE a PUBLIC "p" "x.dtd" [<!ENTITY e "v">]><a>&e;&u;</a>'),
+    ('external-subset', '<?xml version="1.0" standalone="no"?><!DOCTYPE a SYSTEM "x.dtd" [<!ENTITY e "&u;">]><a>&e;</a>'),
     ('entity-text', '<!DOCTYPE a [<!ENTITY e "v"><!ENTITY f "[&e;&e;]">]><a x="&f;">&f;</a>'),
     ('entity-text', '<!DOCTYPE a [<!ENTITY e "">]><a>&e;</a>'),
     ('entity-text', '<!DOCTYPE a [<!ENTITY e "">]><a>x&e;y</a>'),
@@ -280,9 +315,13 @@ def check(run):
         ext = _re.search(r'<!DOCTYPE\s+\S+\s+(SYSTEM|PUBLIC)', d)
         declared = set(W.entity_literals(d)) | set(_re.findall(r'<!ENTITY\s+(\S+)\s+(?:SYSTEM|PUBLIC)', d)) | {'lt', 'gt', 'amp', 'apos', 'quot'}
         undeclared = [m for m in _re.findall(r'&([^;#&\s]+);', d) if m not in declared]
-        if ns != 'wf' or inf is None or ' x:' in inf or ('<!ENTITY %' in d) or (ext and undeclared):
+        if ns != 'wf' or inf is None or ('<!ENTITY %' in d) or (' x:' in inf and not (ext and undeclared)):
             run.count('hand:outside-profile'); continue
+        # (a direct reference to an entity that only an unread external subset can declare stays in the list: the
+        # text is well-formed -- Entity Declared is a validity constraint there -- and denotes an unexpanded
+        # entity reference item; listed finding WF24)
         docs2.append((fam, d, inf))
+    verdict_only = {d for _, d, inf in docs2 if ' x:' in inf}     # unexpanded references: outside the infoset profile, only acceptance is claimed
     impl2 = W.run_impl(run, [d for _, d, _ in docs2], 'd')
     for (fam, d, inf), o in zip(docs2, impl2):
         run.evaluations += 1
@@ -299,6 +338,8 @@ def check(run):
         den = inf.split(' ')
         if not o.startswith('accept'):
             failures.append((d, fam, o.split(' ')[0], [], den, 'verdict', None)); continue
+        if d in verdict_only:
+            continue
         R, M = o[len('accept R '):].split(' M ')
         if M.split(' ') != den:
             failures.append((d, fam, 'accept', M.split(' '), den, 'merged', None))
